@@ -476,6 +476,8 @@ class Container:
             return None
         q = p - self.HDR
         out = {}
+        if not self.ENT:
+            raise AnalysisError("the size of a table entry could not be computed from TdfEntry._write (its codec is not interpretable)")
         for mono, coef in q.t.items():
             if coef % self.ENT != 0:
                 return None
@@ -507,6 +509,24 @@ class Container:
         # (b) block written at seek(new_entry.offset)
         bw = [e for e in ff.ev("block_write") if norm(e.obj) == block_param]
         if not bw:
+            # definite when the block cannot reach the file at all: it is never the receiver / an argument of any call, or it
+            # is serialised into a scratch buffer that no write to the handle mentions
+            used_in_calls = [c for c in ast.walk(fn.node) if isinstance(c, ast.Call) and norm(c.func) not in ("isinstance", "type", "len", "str", "repr", "print")
+                             and (any(isinstance(x, ast.Name) and x.id == block_param for a in list(c.args) + [k.value for k in c.keywords]
+                                      for x in ([a.value] if isinstance(a, ast.Starred) else [a]))
+                                  or (isinstance(c.func, ast.Attribute) and isinstance(c.func.value, ast.Name) and c.func.value.id == block_param))]
+            ser = [c for c in used_in_calls if isinstance(c.func, ast.Attribute) and c.func.attr == "_write" and isinstance(c.func.value, ast.Name) and c.func.value.id == block_param
+                   and c.args and (isinstance(c.args[0], ast.Name) or (isinstance(c.args[0], ast.Call) and norm(c.args[0].func) in ("BytesIO", "io.BytesIO")))]
+            hw = [e.call for e in ff.ev("raw_write", "block_write", "entry_write", "handle_passed") if e.call is not None]
+            if not used_in_calls:
+                rep.fail("container-size", mod, "Tdf.add_block", fn.node, f"add_block never serialises `{block_param}`: the entry is recorded (with the block's size) but the block's bytes are not written to the file",
+                         construct="Tdf.add_block block never serialised")
+                return
+            if ser and len(ser) == len(used_in_calls) and (not isinstance(ser[0].args[0], ast.Name)
+                                                           or not any(isinstance(x, ast.Name) and x.id == ser[0].args[0].id for c in hw for x in ast.walk(c))):
+                rep.fail("container-size", mod, "Tdf.add_block", ser[0], f"`{block_param}` is serialised into the scratch buffer `{norm(ser[0].args[0])}`, which is never written to the file handle",
+                         construct="Tdf.add_block buffer never written")
+                return
             raise AnalysisError("Tdf.add_block no longer serialises the block through <block>._write(handle)")
         for e in bw:
             prev = ff.position_before(e.node)
@@ -524,6 +544,13 @@ class Container:
         # (c) later slots get offset + size
         fa = [e for e in ff.ev("field_assign") if e.field == "offset" and isinstance(e.entry, ast.Name) and ff.entry_names.get(e.entry.id, ("",))[0] == "elem"]
         if not fa:
+            # definite when nothing in add_block assigns an `.offset` attribute at all (the only way a slot is re-pointed)
+            any_off = [n for n in ast.walk(fn.node) if isinstance(n, ast.Attribute) and n.attr == "offset" and isinstance(n.ctx, ast.Store)]
+            calls_out = ff.ev("self_call")
+            if not any_off and not calls_out:
+                rep.fail("container-size", mod, "Tdf.add_block", fn.node, "add_block never re-points the later unused slots: they keep the offset at which the new block now starts instead of the end of the data",
+                         construct="Tdf.add_block later slots not re-pointed")
+                return
             raise AnalysisError("Tdf.add_block no longer re-points later slots (no `.offset` assignment on table entries)")
         want = to_poly(ast.parse(f"{new_entry}.offset + {new_entry}.size", mode="eval").body, self.ctx)
         want_x = to_poly(ff.expand_fresh(ast.parse(f"{new_entry}.offset + {new_entry}.size", mode="eval").body), self.ctx)
